@@ -403,6 +403,9 @@ func main() {
 		}
 	}
 	for _, ie := range custom {
+		if ie.DataType == entities.String && ie.Len != entities.VariableLength {
+			continue
+		}
 		pool = append(pool, ie)
 	}
 	w, err := vt.Open(*out)
@@ -578,7 +581,11 @@ func main() {
 			for j := 0; j < nmsg; j++ {
 				switch x := r.Intn(16); {
 				case x == 0: // unknown template id
-					s.send(dataSet(r, 300+r.Intn(3), big, r.Intn(4), 10, 60000))
+					d := dataSet(r, 300+r.Intn(3), big, r.Intn(4), 10, 60000)
+					s.send(d)
+					for q := 0; q < r.Intn(3); q++ { // the same refused set offered again
+						s.send(d)
+					}
 				case x == 1: // wrong field count
 					wrong := [][]*entities.InfoElement{{u8}, {u8, str, u8}, {}}[r.Intn(3)]
 					s.send(dataSet(r, 256, wrong, 1+r.Intn(2), 10, 60000))
@@ -611,7 +618,7 @@ func main() {
 					}
 					s.send(d)
 				case x == 6: // a template that does not fit
-					ies := make([]*entities.InfoElement, 8200)
+					ies := make([]*entities.InfoElement, 16378+r.Intn(40)) // 4 bytes per specifier: a set of more than 65519 bytes
 					for q := range ies {
 						ies[q] = str
 					}
